@@ -24,7 +24,7 @@ RULE = (
     "Request targets from an adversarial path grammar (real collection names, '..', '.', empty segment, %2e%2e, %2E., ..%2f, %2f, %5c.., doubly encoded ..%252f and %252e%252e, several encoded climbs inside one segment, '..;x', 300-char segment, 'etc', names of sentinel "
     "directories that exist next to the data directory - including data.bak, whose name starts with the root's own name - and '.git'; 1-8 segments after a real base path, optional trailing slash, "
     "optional route prefix, targets without leading '/') x method {GET, HEAD, PUT, POST, DELETE, MKCOL, extended MKCOL, MKCALENDAR, PROPFIND Depth 0/1, PROPPATCH, REPORT multiget (hrefs from the same "
-    "grammar), sync, query, OPTIONS}. Engine A: raw bytes to a real listening `python -m xandikos`-equivalent process started through a launcher that installs an audit hook; engine B: the WSGI callable "
+    "grammar), sync, query, OPTIONS}. Engine A: raw bytes (over a unix-domain socket) to a real listening `python -m xandikos`-equivalent process started through a launcher that installs an audit hook; engine B: the WSGI callable "
     "in-process with PATH_INFO as a WSGI server decodes it (dot segments kept, %2f decoded) under an audit hook. Oracles: (1) a snapshot (names, hashes) of everything around the data directory "
     "(secret/, an existing git repository victim/, an empty esc/, data.bak/) is unchanged after every request; (2) no audited open/listdir/scandir/mkdir/rename/remove/rmdir/rmtree/chmod event of the "
     "request's lifetime resolves to a path outside data/ other than the interpreter, library, source and git-config files seen during a warm-up of benign requests; (3) the request is refused (4xx) with an "
@@ -174,7 +174,7 @@ def snapshot_outside(scratch):
     """Everything in the harness's directory tree except data/, the server's $HOME, the twin and the audit log."""
     out = {}
     top = top_of(scratch)
-    skip = {os.path.join(scratch, x) for x in ("data", "audit.log", "twin", "home")}
+    skip = {os.path.join(scratch, x) for x in ("data", "audit.log", "twin", "home")} | {os.path.join(top, "srv.sock")}
     for d, dirs, files in os.walk(top):
         dirs[:] = sorted(x for x in dirs if os.path.join(d, x) not in skip)
         out[os.path.relpath(d, top) + "/"] = "dir"
@@ -261,13 +261,12 @@ class RealServer:
         self.scratch = make_scratch()
         self.data = os.path.join(self.scratch, "data")
         self.log = os.path.join(self.scratch, "audit.log")
-        from .c18 import free_port
-
-        self.port = free_port()
+        # a unix-domain socket at the top of the harness's own directory: no TCP port to race for
+        self.port = os.path.join(top_of(self.scratch), "srv.sock")
         envv = dict(os.environ, XV_AUDIT_LOG=self.log, XV_REPO=env.REPO, HOME=os.path.join(self.scratch, "home"), PYTHONDONTWRITEBYTECODE="1", TZ="UTC")
         envv.pop("EMAIL", None)
         self.proc = subprocess.Popen(
-            [sys.executable, os.path.join(env.VERIF, "xv", "c13_server.py"), "serve", "-d", self.data, "--defaults", "-l", "127.0.0.1", "-p", str(self.port), "--route-prefix", prefix, "--no-detect-systemd"],
+            [sys.executable, os.path.join(env.VERIF, "xv", "c13_server.py"), "serve", "-d", self.data, "--defaults", "-l", self.port, "--route-prefix", prefix, "--no-detect-systemd"],
             env=envv,
             stdout=subprocess.DEVNULL,
             stderr=subprocess.DEVNULL,
@@ -276,7 +275,10 @@ class RealServer:
         deadline = time.time() + 30
         while time.time() < deadline:
             try:
-                socket.create_connection(("127.0.0.1", self.port), timeout=0.2).close()
+                c = socket.socket(socket.AF_UNIX, socket.SOCK_STREAM)
+                c.settimeout(0.5)
+                c.connect(self.port)
+                c.close()
                 break
             except OSError:
                 if self.proc.poll() is not None:
